@@ -72,6 +72,8 @@ def tlc(module, cfg, workdir, env=None, workers=None, timeout=600, trace_mode=Fa
         "rejected": "TRACE-REJECTED" in out,
         "timeout": p.returncode == 124,
     }
+    me = re.search(r'<<"EMITTED", ([0-9, ]+)>>', out)
+    res["emitted"] = [int(x) for x in me.group(1).split(",")] if me else []
     md = re.search(r"depth of the complete state graph search is (\d+)", out)
     res["depth"] = int(md.group(1)) if md else 0
     return res
@@ -150,6 +152,8 @@ class Check:
     def add_tlc(self, res, note=""):
         self.cov["states"] += res["distinct"]
         self.cov["transitions"] += res["generated"]
+        if res.get("emitted"):
+            self.cov["tlc_constant_level_cases"] = self.cov.get("tlc_constant_level_cases", 0) + sum(res["emitted"])
         self.cov["tlc_runs"].append({"module": res["module"], "cfg": res["cfg"], "distinct": res["distinct"],
                                      "generated": res["generated"], "depth": res["depth"], "wall_s": res["wall_s"], "note": note})
 
